@@ -27,7 +27,7 @@ pub fn min_edge_cut<I>(edges: I, source: usize, sink: usize)
         if let Some(next) = next {
             path_edges = next;
             #[cfg(rust_dsymbols_verif)]
-            crate::verif::emit(format!(
+            crate::verif::emit_with(|| format!(
                 "{{\"ev\":\"augment\",\"flow\":{:?}}}",
                 path_edges.iter().map(|&(v, w)| vec![v, w]).collect::<Vec<_>>()
             ));
